@@ -615,6 +615,32 @@ let handle (fields : string list) : string * string =
   | "kdcrecv" :: _set :: _i :: impl :: [] ->
     let bad = List.exists (fun t -> String.length t > 10 && String.sub t 0 10 = "badframes=" && t <> "badframes=0") (split_on ' ' impl) in
     (impl, if bad then "fail:kdc-received-misframed-request" else "ok")
+  | "alive" :: _what :: impl :: [] ->
+    (* C10: the gateway (or the handler) survived the hostile input and still serves *)
+    ("alive", if impl = "alive" then "ok"
+              else if String.length impl >= 5 && String.sub impl 0 5 = "PANIC" then "fail:panic-" ^ _what
+              else "fail:not-serving-after-" ^ _what)
+  | "hdrc" :: data :: impl :: [] ->
+    let m = (match read_header_src (bytes_of_hex data) with
+        | Panic -> "PANIC"
+        | Ok HShort -> "short"
+        | Ok (HIncomplete (ty, size)) -> Printf.sprintf "incomplete:%d:%d" (int_of_n ty) (int_of_n size)
+        | Ok (HMalformed (ty, size)) -> Printf.sprintf "malformed:%d:%d" (int_of_n ty) (int_of_n size)
+        | Ok (HOk (ty, size, body)) -> Printf.sprintf "ok:%d:%d:%s" (int_of_n ty) (int_of_n size) (hex_of_bytes body)) in
+    (m, if impl = "PANIC" then "fail:panic-readHeader" else if m = impl then "ok" else "fail:readHeader-differs")
+  | "utf16c" :: data :: impl :: [] ->
+    let m = (match decode_utf16_src (bytes_of_hex data) with Panic -> "PANIC" | Ok b -> hex_of_bytes b) in
+    (m, if impl = "PANIC" then "fail:panic-DecodeUTF16" else if m = impl then "ok" else "fail:DecodeUTF16-differs")
+  | "authpayload" :: v :: impl :: [] ->
+    let m = (match auth_payload_src (bytes_of_hex v) with
+        | Panic -> "PANIC"
+        | Ok (p, AmNtlm) -> "ntlm:" ^ hex_of_bytes p
+        | Ok (p, AmNegotiate) -> "negotiate:" ^ hex_of_bytes p
+        | Ok (_, AmNone) -> "none") in
+    (m, if impl = "PANIC" then "fail:panic-getAuthPayload" else if m = impl then "ok" else "fail:getAuthPayload-differs")
+  | "udpc" :: data :: [] ->
+    let m = (match udp_payload_src (bytes_of_hex data) with Panic -> "PANIC" | Ok None -> "skip" | Ok (Some p) -> hex_of_bytes p) in
+    (m, "ok")
   | k :: _ -> failwith ("unknown kind " ^ k)
   | [] -> failwith "empty line"
 
